@@ -806,6 +806,75 @@ static void gen_round3(rng &r, bool th)
     P("reset rc 1");
 }
 
+// ---- round 3b ---------------------------------------------------------------
+static void gen_round3b(rng &r, bool th)
+{
+    // (a) `lifeviol`: ring<Tracked>(n) under ANY sequence over push / pop (contract or not), push(head_place()),
+    // emplace(head_place()) [e] and a push whose copy constructor throws [x]; the five ledger counters are
+    // compared with the model, the oracle judges values (FIFO; strong guarantee of the throwing push)
+    for (int n = 1; n <= 2; n++)
+    {
+        int maxlen = th ? 6 : 5;
+        std::vector<std::string> cur = {""};
+        for (int len = 1; len <= maxlen; len++)
+        {
+            std::vector<std::string> nxt;
+            for (auto &p : cur)
+                for (char c : {'U', 'O', 'a', 'e', 'x'}) nxt.push_back(p + c);
+            for (auto &p : nxt)
+                if (len == maxlen || p.back() == 'e' || p.back() == 'x') P("lifeviol " + S(n) + " " + p);
+            cur = nxt;
+        }
+    }
+    for (int n : {1, 2, 3, 5, 8, 300})
+        for (int rep = 0; rep < (th ? 40 : 8); rep++)
+        {
+            std::string sc;
+            int len = (int)r.range(1, 30);
+            for (int k = 0; k < len; k++)
+            {
+                unsigned y = (unsigned)r.below(100);
+                sc += y < 25 ? 'U' : y < 45 ? 'O' : y < 55 ? 'a' : y < 67 ? 'e' : y < 80 ? 'x' : y < 84 ? 'c' : y < 88 ? 'z'
+                      : y < 92 ? 'y' : y < 96 ? 'g' : 'm';
+            }
+            P("lifeviol " + S(n) + " " + sc);
+        }
+    // the same two events as probes of the recorded findings (lifetime clause of `lifecount`)
+    for (const char *sc : {"e", "ue", "uoe"}) P(std::string("@F:C03-emplace-alias-head-slot lifecount 2 ") + sc);
+    for (const char *sc : {"x", "ux", "uxu"}) P(std::string("@F:C03-ring-push-throwing-copy lifecount 2 ") + sc);
+    // (b) `arr`: unbounded_array<Tracked>(n) under fill / clear / self-assignment / assignment / resize /
+    // begin-end: every token sequence up to length 3 [4] on arrays of 0, 1, 3 elements, random longer ones
+    const std::vector<std::string> toks = {"f5", "c", "s", "g2", "g0", "z3", "z0", "b"};
+    for (int n : {0, 1, 3})
+    {
+        int maxlen = th ? 4 : 3;
+        std::vector<std::string> cur = {""};
+        for (int len = 1; len <= maxlen; len++)
+        {
+            std::vector<std::string> nxt;
+            for (auto &p : cur)
+                for (auto &t : toks) nxt.push_back(p.empty() ? t : p + "," + t);
+            for (auto &p : nxt) P("arr " + S(n) + " " + p);
+            cur = nxt;
+        }
+    }
+    for (int n : {2, 7, 255, 256, 257, 1000})
+        for (int rep = 0; rep < (th ? 12 : 3); rep++)
+        {
+            std::string sc;
+            int len = (int)r.range(1, 8);
+            for (int k = 0; k < len; k++)
+            {
+                unsigned y = (unsigned)r.below(100);
+                std::string t = y < 30 ? "f" + S(r.range(0, 99)) : y < 40 ? "c" : y < 55 ? "s" : y < 70 ? "g" + S(r.pick(std::vector<int>{0, 1, 2, n, n + 1, 300}))
+                                : y < 85 ? "z" + S(r.pick(std::vector<int>{0, 1, n - 1, n, n + 1, 256})) : "b";
+                sc += (k ? "," : "") + t;
+            }
+            P("arr " + S(n) + " " + sc);
+        }
+    P("reset rc 1");
+}
+
 void gen(rng &r, const std::string &tier)
 {
     bool th = tier == "thorough";
@@ -822,5 +891,6 @@ void gen(rng &r, const std::string &tier)
     gen_bring(r, th);
     gen_ext(r, th);
     gen_round3(r, th);
+    gen_round3b(r, th);
 }
 
